@@ -432,6 +432,7 @@ func (e *expression) Value(ctx *hcl.EvalContext) (cty.Value, hcl.Diagnostics) {
 		attrs := map[string]cty.Value{}
 		attrRanges := map[string]hcl.Range{}
 		known := true
+		var keyMarks []cty.ValueMarks
 		for _, jsonAttr := range v.Attrs {
 			// In this one context we allow keys to contain interpolation
 			// expressions too, assuming we're evaluating in interpolation
@@ -483,6 +484,10 @@ func (e *expression) Value(ctx *hcl.EvalContext) (cty.Value, hcl.Diagnostics) {
 				known = false
 				continue
 			}
+			// As in the native syntax, the marks of a key are transferred
+			// to the object as a whole.
+			name, nameMarks := name.Unmark()
+			keyMarks = append(keyMarks, nameMarks)
 			nameStr := name.AsString()
 			if _, defined := attrs[nameStr]; defined {
 				diags = append(diags, &hcl.Diagnostic{
@@ -501,9 +506,9 @@ func (e *expression) Value(ctx *hcl.EvalContext) (cty.Value, hcl.Diagnostics) {
 		if !known {
 			// We encountered an unknown key somewhere along the way, so
 			// we can't know what our type will eventually be.
-			return cty.DynamicVal, diags
+			return cty.DynamicVal.WithMarks(keyMarks...), diags
 		}
-		return cty.ObjectVal(attrs), diags
+		return cty.ObjectVal(attrs).WithMarks(keyMarks...), diags
 	case *nullVal:
 		return cty.NullVal(cty.DynamicPseudoType), nil
 	default:
